@@ -173,9 +173,13 @@ fn local_swap_stress(ctx: &Ctx, out: &mut Outcome) {
             let listed: Vec<(String, u64)> = local.list_chunks().await.unwrap_or_default().into_iter().map(|c| (c.chunk_path, c.row_count)).collect();
             let rows: u64 = listed.iter().map(|c| c.1).sum();
             let want_rows = 5 * nsrc as u64;
-            if oks != 1 || rows != want_rows || listed.len() != 1 {
+            if oks != 1 {
+                out.count("swap_stress.rounds_without_exactly_one_winner", 1);
+            }
+            // the verdict is about rows (each source row reachable exactly once), not about who won
+            if rows != want_rows {
                 out.violation(
-                    if rows > want_rows { "C03/local/concurrent-swaps-duplicate-rows" } else if rows < want_rows { "C03/local/concurrent-swaps-lose-rows" } else { "C03/local/concurrent-swaps-wrong-outcome" },
+                    if rows > want_rows { "C03/local/concurrent-swaps-duplicate-rows" } else { "C03/local/concurrent-swaps-lose-rows" },
                     &format!("{} concurrent swaps of the same {} source chunk(s) ({} rows): {} reported success, the catalog then lists {:?} ({} rows)", k, nsrc, want_rows, oks, listed, rows),
                     json!({"lane": "swap-stress", "round": idx, "seed": ctx.seed}),
                 );
